@@ -137,6 +137,8 @@ theorem create_only_when_unsent (j : Job) (op : Op)
               (simp only [List.mem_append] at h; rw [hc, hc2] at h
                split at h <;> split at h <;> simp at h)
 
+example : Call.create ∈ (step true init (.execute (.ok 1))).2.calls := by decide
+
 /-! ## the reported status is the last status read -/
 
 /-- Over any history (both versions of the code): if the most recent event that set the status
@@ -222,6 +224,9 @@ theorem final_absorbing (fixed : Bool) (j : Job) (post : List Op)
 
 example : ({ born 1 with status := .success } : Job).status.completed = true := by decide
 
+example : ∀ op ∈ [Op.poll .status .conn, .cancel .conn (.ok 1), .rerun .conn .conn (.ok 2) false],
+    op.switches = false := by decide
+
 /-- … and every later status read reports that final status, whatever the server would answer. -/
 theorem final_reported_forever (fixed : Bool) (j : Job) (post : List Op) (v : View) (r : Resp)
     (hfin : j.status.completed = true) (hns : ∀ op ∈ post, op.switches = false) :
@@ -297,6 +302,9 @@ theorem streak_law_nth (j : Job) (rs : List Resp) (i : Nat) (r : Resp) (hd : sta
 
 example : ∀ r ∈ [Resp.conn, .http 429, .http 408], r.isTransient = true := by decide
 
+example : statusDue (born 1) = true ∧ (born 1).streak = 0 ∧
+    (List.replicate 6 Resp.conn)[5]? = some .conn := by decide
+
 /-- Any HTTP error outside the whitelist raises at once, in every state, on both versions. -/
 theorem fatal_http_raises (fixed : Bool) (j : Job) (v : View) (c : Nat)
     (hd : statusDue j = true) (hc : transient c = false) :
@@ -359,6 +367,9 @@ theorem results_only_when_maybe_completed (fixed : Bool) (j : Job) (r1 r2 : Resp
     · simp [hm] at hres
     · simp
 
+example : (getResults true { born 1 with status := .success } .conn .conn (.ok 7)).2.res = .results (some 7) := by
+  decide
+
 /-- A failed job without retrievable results reports its failure message: the `RuntimeError`
 "The job failed: …" is only raised for a job whose status is ERROR/CANCELED and carries that job's
 stop message. -/
@@ -410,6 +421,9 @@ theorem failed_message (fixed : Bool) (j : Job) (r1 r2 : Resp) (h : RResp) (m : 
               | empty => simp at hres
               | http c => simp at hres
               | conn => simp at hres
+
+example : (getResults true { born 1 with status := .error, msg := .server 3 } .conn .conn .missing).2.res =
+    .raised (.jobFailed (.server 3)) := by decide
 
 /-- the message of a job whose ERROR/CANCELED status came from the server is that answer's
 `status_message` (any state, both versions) -/
